@@ -41,7 +41,8 @@ RULE = ("history: sequences of <= 6 request bodies over %d kinds (1.0-form / 2.0
         "sequences of <= 8 operations (before and after copy()), snapshots of both objects after each. threads: 2-4 real "
         "threads x 3 rounds on one dispatcher. linesched: 2 handler threads, all interleavings at the Config-touching lines for "
         "4 (quick) / 8 (thorough) request pairs x {own Config 2.0, DEFAULT}; 3 threads, random schedules. Non-trivial: history exercising the compatibility copy or of length >= 2; "
-        "config case with >= 1 operation. Distinct by case hash." % len(CS.KINDS))
+        "config case with >= 1 operation. Distinct by case hash." % len(CS.KINDS) +
+        " Added after the seeded rounds: hosts (dispatcher, SimpleJSONRPCServer, PooledJSONRPCServer, CGI handler objects) in the history stream; request kinds with odd jsonrpc members; `overlap` stream (C04's, with the reply-form and Config-unchanged clauses).")
 TRUSTED = ["modelled, not verified: json.loads / class translation of the bodies (model input: outcome of jsonrpclib.loads), "
            "jsonclass.dump of results, json.dumps, CPython argument binding",
            "snapshot / write-watching helpers (harness/dispatch_support/config_support.py): a Config subclass and dict subclasses "
